@@ -78,6 +78,18 @@ def rand_entry(r, k, names):
         e["lextra"] = [(r.choice([0x5455, 0x7875, 0xcafe, 0x000a]), rand_bytes(r, r.randint(0, 40))) for _ in range(r.randint(1, 2))]
     if r.random() < 0.4:
         e["cextra"] = [(r.choice([0x5455, 0x7875, 0xbeef, 0x000a]), rand_bytes(r, r.randint(0, 40))) for _ in range(r.randint(1, 2))]
+    if r.random() < 0.2:
+        # well-formed informational records of other producers: extended timestamp (its times need not agree with the DOS words),
+        # Unicode Path / Comment (checksum of the header name matching or stale), NTFS times.  None of them changes what the
+        # header fields say.
+        import zlib
+        ut = b"\x03" + r.randrange(0, 2 ** 31).to_bytes(4, "little") * 2
+        up = b"\x01" + ((zlib.crc32(nm) if r.random() < 0.5 else r.randrange(2 ** 32)) & 0xFFFFFFFF).to_bytes(4, "little") + ("autre-nom-%d" % k).encode()
+        ntfs = bytes(4) + (1).to_bytes(2, "little") + (24).to_bytes(2, "little") + r.randrange(2 ** 60).to_bytes(8, "little") * 3
+        recs = [(0x5455, ut), (0x7075, up), (0x000a, ntfs)]
+        r.shuffle(recs)
+        e["cextra"] = e.get("cextra", []) + [(i_, (b_[:5] if i_ == 0x5455 else b_)) for i_, b_ in recs[:r.randint(1, 3)]]
+        e["lextra"] = e.get("lextra", []) + recs[:r.randint(1, 3)]
     if r.random() < 0.3:
         e["fcomment"] = r.choice([b"file comment", "commentaire é".encode() if utf8 else b"c\x82mment", b"x" * 300,
                                   "commentaire é (no flag: CP437)".encode()])
@@ -166,9 +178,13 @@ def from_producer_case(sc, A):
                      "z64": set(n for m, n in (("us", "usize"), ("cs", "csize"), ("off", "off")) if f[m]),
                      "z64_last": c["zlast"], "lz64": c["lz64"], "lz64_last": c["lzl"],
                      "cextra": [(0xcafe, b"ccc")] * c["nother"], "lextra": [(0xcafe, b"lll")] * c["lother"]})
+        if c.get("aes", "none") != "none":      # AE-2, 256 bit; the AE-x record before / after the entry's other records
+            ents[-1]["enc"] = ("aes", 1 + (k + len(A["ents"]) + c["nother"]) % 2, 1 + (c["nother"] + 2 * c["lother"]) % 3, b"producer pw")
+            ents[-1]["aes_first"] = c["aes"] == "before"
     d = {"entries": ents, "prefix": b"\x07" * A["prefix"], "gaps": [b"\x01" * g for g in A["gaps"]],
          "order": [i - 1 for i in A["order"]]}
-    return scenario(sc, d)[0]
+    pwq = [{"i": j, "kind": "right", "pw": b"producer pw".hex()} for j, i in enumerate(d["order"]) if "enc" in ents[i]]
+    return scenario(sc, d, pwq=pwq or None)[0]
 
 
 def resolve_zstd(descs, harness_bin):
